@@ -183,6 +183,11 @@ impl FramebufferTag {
                 let palette = {
                     // Ensure the slice can be created without causing UB
                     assert_eq!(mem::size_of::<FramebufferColor>(), 3);
+                    let palette_len = num_colors as usize * mem::size_of::<FramebufferColor>();
+                    assert!(
+                        palette_len <= self.buffer.len() - reader.off,
+                        "Embedded palette should be properly sized and available"
+                    );
 
                     unsafe {
                         slice::from_raw_parts(
